@@ -155,16 +155,47 @@ def r1_coverage(ctx):
         raise Undecided("_hash does not feed obj2bytes(<list name>) to the "
                         "digest")
     listvar = inner[0].args[0].id
+    chunkwise = None
+    # entry-wise form: chunks = [obj2bytes(e) for e in L]; for c in chunks:
+    # hasher.update(<length prefix> + c) - the digest of the same bytes
+    # that obj2bytes(L) yields for a list
+    for st in fn.body:
+        if isinstance(st, ast.Assign) and isinstance(
+                st.value, ast.ListComp) and st.value.elt is inner[0] and \
+                len(st.value.generators) == 1 and norm(
+                    st.value.generators[0].target) == listvar and \
+                not st.value.generators[0].ifs and isinstance(
+                    st.value.generators[0].iter, ast.Name) and isinstance(
+                    st.targets[0], ast.Name):
+            chunks = st.targets[0].id
+            fed = [lp for lp in fn.body if isinstance(lp, ast.For)
+                   and norm(lp.iter) == chunks and len(lp.body) == 1
+                   and isinstance(lp.body[0], ast.Expr)
+                   and isinstance(lp.body[0].value, ast.Call)
+                   and isinstance(lp.body[0].value.func, ast.Attribute)
+                   and lp.body[0].value.func.attr == "update"
+                   and norm(lp.target) in norm(lp.body[0].value)]
+            if fed:
+                listvar = st.value.generators[0].iter.id
+                chunkwise = fed[0]
     # `hashlist = items` (the list was built under another name)
     for _ in range(3):
-        al = [st.value.id for st in fn.body if isinstance(st, ast.Assign)
+        def src_(v):
+            if isinstance(v, ast.Call) and call_name(v) in (
+                    "list", "tuple", "copy.copy") and len(v.args) == 1 and \
+                    not v.keywords:
+                v = v.args[0]
+            return v
+        al = [src_(st.value).id for st in fn.body
+              if isinstance(st, ast.Assign)
               and norm(st.targets[0]) == listvar
-              and isinstance(st.value, ast.Name)]
+              and isinstance(src_(st.value), ast.Name)]
         if len(al) == 1:
             listvar = al[0]
         else:
             break
-    ctx.check(any(inner[0] in list(ast.walk(d)) for d in dig), dig[0],
+    ctx.check(chunkwise is not None or any(
+        inner[0] in list(ast.walk(d)) for d in dig), dig[0],
               f"digest of obj2bytes({listvar})",
               "the digest is not computed from the encoded settings list")
     # direct appends outside the settings loop
